@@ -150,6 +150,20 @@ def make_sheet(rnd, premium=False, default_bg=(255, 255, 255), rich=False, n_rul
         elif r < 0.25 and allowed("var-undefined"):
             text_val = f"var(--{tag}undefined{i})"
             src = "var-undefined"
+        elif r < 0.39 and r >= 0.33 and allowed("translucent"):
+            # translucent text: it is seen (and must be judged) over this rule's own background
+            a = rnd.choice(["0.3", "0.5", "0.6", "0.75", "0.9", "0.95"])
+            fg = tuple(t)
+            form = rnd.randrange(4)
+            if form == 0:
+                text_val = "rgba(%d, %d, %d, %s)" % (fg + (a,))
+            elif form == 1:
+                text_val = SP.hsl_spelling(fg, alpha=a) or "rgba(%d, %d, %d, %s)" % (fg + (a,))
+            elif form == 2:
+                text_val = "rgb(%d, %d, %d, %s)" % (fg + (a,))
+            else:
+                text_val = "rgb(%d %d %d / %s)" % (fg + (a,))
+            src = "translucent"
         elif r < 0.33 and allowed("var-shared"):
             # a second rule will use the same variable
             name = new_var(text_val)
